@@ -31,6 +31,9 @@
 (*              variables {t: values sw}, parameters {value: "2 * t"}      *)
 (* SweepMul     sweep over FloatMultiplyOperation, parameters {factor: t}  *)
 (* SweepSrcCtx  like SweepSrc with variables {t: from_context k1}          *)
+(* typing-only kinds (Factories.tla): PSrc FloatPayloadSource, PSrcInj     *)
+(* VInjectPayloadSource (injects "b"), PSink FloatPayloadSink, ProbeP      *)
+(* VScaleProbe (factor = 1), Touch VTouchOperation                         *)
 (***************************************************************************)
 EXTENDS Values
 
@@ -44,24 +47,25 @@ NS(kind, sw)      == Node(kind, <<>>, "", "", sw)
 WithBogus(n)      == [n EXCEPT !.cfg = [x \in (DOMAIN n.cfg) \cup {"bogus"} |->
                                            IF x \in DOMAIN n.cfg THEN n.cfg[x] ELSE 1]]
 
-SourceKinds  == {"Src", "SrcDef", "Src0", "SweepSrc", "SweepSrcCtx"}
-FloatInKinds == {"Mul", "MulDef", "Add", "Sq", "Probe", "Sink", "CtxW", "CtxWBad", "Boom", "Abort", "SweepMul"}
+SourceKinds  == {"Src", "SrcDef", "Src0", "SweepSrc", "SweepSrcCtx", "PSrc", "PSrcInj"}
+FloatInKinds == {"Mul", "MulDef", "Add", "Sq", "Probe", "ProbeP", "Sink", "PSink", "Touch", "CtxW", "CtxWBad", "Boom", "Abort", "SweepMul"}
 CollInKinds  == {"SliceMul", "SliceMulDef", "SliceProbe", "Sum"}
 CtxKinds     == {"Rename", "Delete", "Template"}
-ProbeKinds   == {"Probe", "SliceProbe"}
+ProbeKinds   == {"Probe", "SliceProbe", "ProbeP"}
 SweepKinds   == {"SweepSrc", "SweepMul", "SweepSrcCtx"}
-PassKinds    == ProbeKinds \cup {"Sink"} \cup CtxKinds      \* data passes through unchanged
+PassKinds    == ProbeKinds \cup {"Sink", "PSink"} \cup CtxKinds      \* data passes through unchanged
 
 ParamNames(n) ==
     CASE n.kind \in {"Src", "SrcDef"}                          -> {"value"}
       [] n.kind \in {"Mul", "MulDef", "SliceMul", "SliceMulDef"} -> {"factor"}
       [] n.kind = "Add"                                        -> {"addend"}
+      [] n.kind = "ProbeP"                                     -> {"factor"}
       [] n.kind \in CtxKinds                                   -> {n.k1}
       [] n.kind = "SweepSrcCtx"                                -> {n.k1}
       [] OTHER                                                 -> {}
 
 HasDefault(n, p) == \/ n.kind = "SrcDef" /\ p = "value"
-                    \/ n.kind \in {"MulDef", "SliceMulDef"} /\ p = "factor"
+                    \/ n.kind \in {"MulDef", "SliceMulDef", "ProbeP"} /\ p = "factor"
 Default(n, p)    == IF n.kind = "SrcDef" THEN Num(42) ELSE Num(2)
 
 \* generated classes whose _process_logic takes **kwargs accept any configuration key
@@ -77,13 +81,14 @@ InT(n) == IF n.kind \in SourceKinds THEN "none"
           ELSE IF n.kind \in CollInKinds THEN "coll" ELSE "any"
 
 \* "same" = the node passes its input type through
-OutT(n) == IF n.kind \in {"Src", "SrcDef", "Src0", "Mul", "MulDef", "Add", "Sq", "CtxW", "CtxWBad", "Boom", "Abort", "Sum"} THEN "float"
+OutT(n) == IF n.kind \in {"PSrc", "PSrcInj", "Touch", "Src", "SrcDef", "Src0", "Mul", "MulDef", "Add", "Sq", "CtxW", "CtxWBad", "Boom", "Abort", "Sum"} THEN "float"
            ELSE IF n.kind \in {"SweepSrc", "SweepSrcCtx", "SweepMul", "SliceMul", "SliceMulDef"} THEN "coll"
            ELSE "same"
 
 Created(n) == CASE n.kind \in ProbeKinds             -> {n.k1}
                 [] n.kind \in {"Rename", "Template"} -> {n.k2}
-                [] n.kind = "CtxW"                   -> {"w"}
+                [] n.kind \in {"CtxW", "CtxWBad"}    -> {"w"}     \* declared keys (CtxWBad writes another one)
+                [] n.kind = "PSrcInj"                -> {"b"}
                 [] n.kind \in SweepKinds             -> {"t_values"}
                 [] OTHER                             -> {}
 Suppressed(n) == IF n.kind \in {"Rename", "Delete"} THEN {n.k1} ELSE {}
